@@ -264,6 +264,13 @@ def gen(rng, tier, shard, batch):
     # quotient-digit estimate of 2^64 + 1 (divisor with normalised low word > high word; operand found by solving
     # a * x mod yn in [(2^64 + 1) * yn1, yn) with a Euclid-like search)
     reqs += K.est_gt_b_requests(rng, 6 if tier == "quick" else 20, G.fD)[0]
+    # all-ones / single-bit / empty 64-bit limbs in factors and divisor
+    lg = G.limb_grid()
+    for _ in range(150 if tier == "quick" else 600):
+        a, b = rng.choice(lg), rng.choice(lg)
+        y = rng.choice((rng.choice(lg), P10[rng.randrange(1, 39)], rng.choice(lg) | 1))
+        reqs.append("k_i256 %d %d %d" % (a * rng.choice((1, -1)), b * rng.choice((1, -1)), y))
+        reqs.append("k_shdm %d %d %d" % (a * rng.choice((1, -1)), rng.randrange(0, 39), y))
     reqs.append("mode RoundHalfEven")
     per_mode = N_RANDOM[tier] // 16
     for mode in MODES:
